@@ -14,7 +14,7 @@ Definition conv_byte (c : conv) : Z :=
   end.
 
 Inductive wd : Type := WNone | WLit (ds : bytes) | WStar.
-Inductive pr : Type := PNone | PLit (ds : bytes) | PStar.      (* PLit [] is "." *)
+Inductive pr : Type := PrNone | PrLit (ds : bytes) | PrStar.      (* PrLit [] is "." *)
 
 Record dir : Type := mkDir { d_flags : bytes; d_width : wd; d_prec : pr; d_conv : conv }.
 
@@ -31,10 +31,10 @@ Definition wf_dir (d : dir) : bool :=
      | WLit [] => false
      | _ => true
      end
-  && match d_prec d with PLit ds => forallb is_dig ds | _ => true end.
+  && match d_prec d with PrLit ds => forallb is_dig ds | _ => true end.
 
 Definition render_w (w : wd) : bytes := match w with WNone => [] | WLit ds => ds | WStar => [42] end.
-Definition render_p (p : pr) : bytes := match p with PNone => [] | PLit ds => 46 :: ds | PStar => [46; 42] end.
+Definition render_p (p : pr) : bytes := match p with PrNone => [] | PrLit ds => 46 :: ds | PrStar => [46; 42] end.
 
 (* the conversion specification as text *)
 Definition render (d : dir) : bytes :=
@@ -47,7 +47,7 @@ Definition has (c : Z) (fl : bytes) : bool := existsb (Z.eqb c) fl.
 
 (* how many int arguments the '*'s take *)
 Definition n_stars (d : dir) : nat :=
-  (match d_width d with WStar => 1 | _ => 0 end + match d_prec d with PStar => 1 | _ => 0 end)%nat.
+  (match d_width d with WStar => 1 | _ => 0 end + match d_prec d with PrStar => 1 | _ => 0 end)%nat.
 
 (* ---- the resolved specification: flags, field width, precision ---- *)
 Record rspec : Type := mkR {
@@ -61,9 +61,9 @@ Record rspec : Type := mkR {
 Definition resolve (d : dir) (wv pv : Z) : rspec :=
   let w := match d_width d with WNone => 0 | WLit ds => dval ds | WStar => wv end in
   let p := match d_prec d with
-           | PNone => None
-           | PLit ds => Some (dval ds)
-           | PStar => if pv <? 0 then None else Some pv
+           | PrNone => None
+           | PrLit ds => Some (dval ds)
+           | PrStar => if pv <? 0 then None else Some pv
            end in
   mkR (has 45 (d_flags d) || (w <? 0)) (has 43 (d_flags d)) (has 32 (d_flags d))
       (has 35 (d_flags d)) (has 48 (d_flags d)) (Z.abs w) p.
@@ -164,6 +164,6 @@ Definition c_defined (d : dir) : bool :=
   | Cd | Ci | Cu => negb (has 35 (d_flags d))
   | Co | Cx | CX => true
   | Cc => negb (has 35 (d_flags d)) && negb (has 48 (d_flags d))
-          && match d_prec d with PNone => true | _ => false end
+          && match d_prec d with PrNone => true | _ => false end
   | Cs => negb (has 35 (d_flags d)) && negb (has 48 (d_flags d))
   end.
